@@ -49,7 +49,7 @@ pub fn c04(ctx: &mut Ctx) {
 pub fn c09(ctx: &mut Ctx) {
     let mut real = Real::new();
     let names = vector_names(&real.names());
-    let maxlen = if ctx.tier_thorough { 4 } else { 3 };
+    let maxlen = if ctx.tier_thorough { 5 } else { 3 };
     let mut alpha = Alpha::boundary(false);
     alpha.bvs = crate::alpha::bvs_pool(maxlen);
     alpha.ivs = crate::alpha::ivs_pool(maxlen);
@@ -63,7 +63,7 @@ pub fn c09(ctx: &mut Ctx) {
     reduced.fvs = crate::alpha::fvs_pool(2);
     reduced.floats = vec![-2.5, 0.0, 0.5, f32::INFINITY, f32::NAN];
     reduced.ints = vec![IMIN, -2, -1, 0, 1, 2, 3, IMAX];
-    let sw = Sweep { names, alpha, reduced, cap_per_instr: if ctx.tier_thorough { 400_000 } else { 40_000 }, missing: false, only_missing: false, populated_too: false, oracle: Oracle::Judge };
+    let sw = Sweep { names, alpha, reduced, cap_per_instr: if ctx.tier_thorough { 2_000_000 } else { 40_000 }, missing: false, only_missing: false, populated_too: false, oracle: Oracle::Judge };
     sweep::run(ctx, &mut real, &sw);
 }
 
@@ -192,7 +192,7 @@ fn position_map(op: &str, n: usize, idx: Option<i32>) -> Option<Vec<usize>> {
 
 pub fn c05(ctx: &mut Ctx) {
     let mut real = Real::new();
-    let maxd = if ctx.tier_thorough { 7 } else { 5 };
+    let maxd = if ctx.tier_thorough { 10 } else { 5 };
     let ops = ["DUP", "POP", "SWAP", "ROT", "YANK", "YANKDUP", "SHOVE", "FLUSH", "STACKDEPTH"];
     for (prefix, t, _) in STACK_TYPES.iter() {
         for op in ops.iter() {
